@@ -182,7 +182,19 @@ def r3(ctx, chk):
         chk.ob(rule, "the priority sort is skipped when use_given_order", guarded, "the given order is always overridden",
                key={"function": f.key, "construct": "sort guard"}, file=f.file, function=f.qual, line=s.lineno)
         lam = [n for n in ast.walk(s.value) if isinstance(n, ast.Lambda)]
-        ok = bool(lam) and "language_order.index(" in ast.unparse(lam[0].body)
+        ok = False
+        if lam:
+            body = lam[0].body
+            lp = lam[0].args.args[0].arg if lam[0].args.args else None
+            if isinstance(body, ast.Call) and ast.unparse(body.func) == "language_order.index" and len(body.args) == 1:
+                a = body.args[0]
+                # the looked-up value must be the language element itself: subscripts of the lambda parameter only
+                pure = True
+                cur = a
+                while isinstance(cur, ast.Subscript) and isinstance(cur.slice, ast.Constant):
+                    cur = cur.value
+                pure = isinstance(cur, ast.Name) and cur.id == lp
+                ok = pure and ast.unparse(a) == "%s[1][0]" % lp
         chk.ob(rule, "the sort key is the language's position in language_order", ok, "",
                key={"function": f.key, "construct": "sort key"}, file=f.file, function=f.qual, line=s.lineno)
     yields = [s for s in iter_own_stmts(f.node.body) if isinstance(s, ast.Expr) and isinstance(s.value, ast.Yield)]
